@@ -161,9 +161,18 @@ func fbindKey(fbind map[int][]funcVal_) string {
 // function-valued parameters (or parameters that are arrays or slices of functions) can denote at one
 // call site (fbind).
 func (e *effEngine) WithF(fn *ssa.Function, bind map[int]constant.Value, fbind map[int][]funcVal_) *Effects {
+	return e.WithFL(fn, bind, fbind, nil)
+}
+
+// WithFL: additionally specialised to the results the caller uses (liveRes[i] false: the i-th result is
+// discarded at this call site): a load that only feeds discarded results is not a read of this call.
+func (e *effEngine) WithFL(fn *ssa.Function, bind map[int]constant.Value, fbind map[int][]funcVal_, liveRes []bool) *Effects {
 	key := fname(fn) + "|" + bindKey(bind)
 	if fk := fbindKey(fbind); fk != "" {
 		key += "|f:" + fk
+	}
+	if liveRes != nil {
+		key += fmt.Sprintf("|live:%v", liveRes)
 	}
 	if r, ok := e.memo[key]; ok {
 		return r
@@ -174,7 +183,7 @@ func (e *effEngine) WithF(fn *ssa.Function, bind map[int]constant.Value, fbind m
 		return r
 	}
 	e.progress[key] = true
-	a := &effAnalysis{e: e, fn: fn, bind: bind, fbind: fbind, res: newEffects(fn, bindKey(bind)), orig: map[ssa.Value]Origin{}, consts: map[ssa.Value]constant.Value{}}
+	a := &effAnalysis{e: e, fn: fn, bind: bind, fbind: fbind, liveRes: liveRes, res: newEffects(fn, bindKey(bind)), orig: map[ssa.Value]Origin{}, consts: map[ssa.Value]constant.Value{}}
 	a.run()
 	delete(e.progress, key)
 	e.memo[key] = a.res
@@ -186,6 +195,9 @@ type effAnalysis struct {
 	fn       *ssa.Function
 	bind     map[int]constant.Value
 	fbind    map[int][]funcVal_
+	liveRes  []bool                   // which results the caller uses (nil: all)
+	deadLoad map[*ssa.UnOp]bool       // loads that only feed discarded results
+	deadCall map[*ssa.Call]bool       // pure calls that only feed discarded results
 	curMC    *ssa.MakeClosure // the closure whose body is being merged (its bindings are what fv<i> roots denote)
 	res      *Effects
 	orig     map[ssa.Value]Origin
@@ -375,9 +387,96 @@ func reachableBlocks(fn *ssa.Function, bind map[int]constant.Value) map[*ssa.Bas
 	return reach
 }
 
+// findDeadLoads: with some results discarded, the loads outside the backward slice of everything else the
+// function does (live results, stores, calls, panics, branch conditions).
+func (a *effAnalysis) findDeadLoads() {
+	needed := map[ssa.Value]bool{}
+	var work []ssa.Value
+	need := func(v ssa.Value) {
+		if v != nil && !needed[v] {
+			needed[v] = true
+			work = append(work, v)
+		}
+	}
+	for _, b := range a.fn.Blocks {
+		for _, ins := range b.Instrs {
+			switch x := ins.(type) {
+			case *ssa.Return:
+				for i, r := range x.Results {
+					if i >= len(a.liveRes) || a.liveRes[i] {
+						need(r)
+					}
+				}
+			case *ssa.Phi, *ssa.BinOp, *ssa.UnOp, *ssa.Convert, *ssa.ChangeType, *ssa.FieldAddr, *ssa.IndexAddr, *ssa.Index, *ssa.Field, *ssa.Extract, *ssa.Slice, *ssa.MakeInterface, *ssa.Lookup, *ssa.Alloc, *ssa.DebugRef:
+				// pure values: needed only when something needed uses them
+			case *ssa.Call:
+				if a.pureCall(x) {
+					break // a call that only computes a value: needed only when the value is
+				}
+				var ops []*ssa.Value
+				for _, op := range ins.Operands(ops) {
+					if op != nil {
+						need(*op)
+					}
+				}
+				need(x)
+			default:
+				var ops []*ssa.Value
+				for _, op := range ins.Operands(ops) {
+					if op != nil {
+						need(*op)
+					}
+				}
+				if v, ok := ins.(ssa.Value); ok {
+					need(v)
+				}
+			}
+		}
+	}
+	for len(work) > 0 {
+		v := work[len(work)-1]
+		work = work[:len(work)-1]
+		ins, ok := v.(ssa.Instruction)
+		if !ok {
+			continue
+		}
+		var ops []*ssa.Value
+		for _, op := range ins.Operands(ops) {
+			if op != nil {
+				need(*op)
+			}
+		}
+	}
+	a.deadLoad = map[*ssa.UnOp]bool{}
+	a.deadCall = map[*ssa.Call]bool{}
+	for _, b := range a.fn.Blocks {
+		for _, ins := range b.Instrs {
+			if ld, ok := ins.(*ssa.UnOp); ok && ld.Op == token.MUL && !needed[ld] {
+				a.deadLoad[ld] = true
+			}
+			if call, ok := ins.(*ssa.Call); ok && !needed[call] && a.pureCall(call) {
+				a.deadCall[call] = true
+			}
+		}
+	}
+}
+
+// pureCall: a static call of a library function that writes nothing, cannot panic and calls nothing unknown.
+func (a *effAnalysis) pureCall(call *ssa.Call) bool {
+	callee := call.Common().StaticCallee()
+	if callee == nil || !a.isLib(callee) || callee == a.fn {
+		return false
+	}
+	ce := a.e.With(callee, nil)
+	return len(ce.Writes) == 0 && len(ce.Panics) == 0 && len(ce.Ext) == 0 && len(ce.Dyn) == 0 && len(ce.Unknown) == 0 && !ce.Recursion
+}
+
 func (a *effAnalysis) run() {
 	fn := a.fn
 	a.reach = reachableBlocks(fn, a.bind)
+	if a.liveRes != nil {
+		a.findDeadLoads()
+	}
 	for _, b := range fn.Blocks {
 		if !a.reach[b] {
 			continue
@@ -438,6 +537,9 @@ func (a *effAnalysis) instr(ins ssa.Instruction) {
 		}
 	case *ssa.UnOp:
 		if x.Op == token.MUL {
+			if a.deadLoad[x] {
+				break // feeds only results this call site discards
+			}
 			if a.structCopyReads(x) {
 				break
 			}
@@ -479,6 +581,9 @@ func (a *effAnalysis) instr(ins ssa.Instruction) {
 			a.retMixed = true
 		}
 	case *ssa.Call:
+		if a.deadCall[x] {
+			break // computes only what this call site discards
+		}
 		a.call(x.Common(), x.Pos(), x)
 	case *ssa.Defer:
 		a.call(x.Common(), x.Pos(), nil)
@@ -1117,7 +1222,7 @@ func (a *effAnalysis) call(common *ssa.CallCommon, pos token.Pos, callInstr *ssa
 			}
 		}
 		a.closureBind(common, bind)
-		ce := a.e.WithF(callee, bind, a.funcArgs(callee, common.Args))
+		ce := a.e.WithFL(callee, bind, a.funcArgs(callee, common.Args), usedResults(callInstr, callee))
 		a.curMC, _ = common.Value.(*ssa.MakeClosure)
 		a.merge(ce, common.Args)
 		a.curMC = nil
@@ -1170,6 +1275,39 @@ func (a *effAnalysis) call(common *ssa.CallCommon, pos token.Pos, callInstr *ssa
 	if _, ok := a.res.Unknown[name]; !ok {
 		a.res.Unknown[name] = pos
 	}
+}
+
+// usedResults: which results of a call that returns several the caller takes out of the tuple and uses
+// (nil when all are, or when that cannot be told).
+func usedResults(call *ssa.Call, callee *ssa.Function) []bool {
+	n := callee.Signature.Results().Len()
+	if call == nil || n < 2 || call.Referrers() == nil {
+		return nil
+	}
+	used := make([]bool, n)
+	for _, ref := range *call.Referrers() {
+		switch x := ref.(type) {
+		case *ssa.Extract:
+			if x.Referrers() != nil {
+				for _, r := range *x.Referrers() {
+					if _, dbg := r.(*ssa.DebugRef); !dbg {
+						used[x.Index] = true
+					}
+				}
+			}
+		case *ssa.DebugRef:
+		default:
+			return nil
+		}
+	}
+	all := true
+	for _, u := range used {
+		all = all && u
+	}
+	if all {
+		return nil
+	}
+	return used
 }
 
 // isFuncish: a function type, or an array or slice of functions.
